@@ -774,6 +774,155 @@ TWINS["C13_twin_negated_switch"] = ("C13", [(D, """                        if co
 
                 # Actually""")])
 
+TWINS["C13_twin_cause_conditional_expression"] = ("C13", [(D, """                        if config.jaxtyping_remove_typechecker_stack:
+                            raise TypeCheckError(msg) from None
+                        else:
+                            raise TypeCheckError(msg) from e
+
+                # Actually""", """                        raise TypeCheckError(msg) from (
+                            None if config.jaxtyping_remove_typechecker_stack else e
+                        )
+
+                # Actually""")])
+TWINS["C13_twin_cause_local"] = ("C13", [(D, """                        if config.jaxtyping_remove_typechecker_stack:
+                            raise TypeCheckError(msg) from None
+                        else:
+                            raise TypeCheckError(msg) from e
+
+                # Actually""", """                        cause = e
+                        if config.jaxtyping_remove_typechecker_stack:
+                            cause = None
+                        raise TypeCheckError(msg) from cause
+
+                # Actually""")])
+SEEDS["C13_cause_conditional_expression_swapped"] = ("C13", [(D, """                        if config.jaxtyping_remove_typechecker_stack:
+                            raise TypeCheckError(msg) from None
+                        else:
+                            raise TypeCheckError(msg) from e
+
+                # Actually""", """                        raise TypeCheckError(msg) from (
+                            e if config.jaxtyping_remove_typechecker_stack else None
+                        )
+
+                # Actually""")], "C13.4")
+SEEDS["C13_cause_flag_ignored"] = ("C13", [(D, """                        if config.jaxtyping_remove_typechecker_stack:
+                            raise TypeCheckError(msg) from None
+                        else:
+                            raise TypeCheckError(msg) from e
+
+                # Actually""", """                        raise TypeCheckError(msg) from e
+
+                # Actually""")], "C13.4")
+
+# NamedTuple holders for the four memos (normalised away: jtsa/inline.py erase_new_namedtuples)
+TWINS["C04_twin_namedtuple_memos"] = ("C04", [(A, """        single_memo, variadic_memo, pytree_memo, arg_memo = get_shape_memo()
+        single_memo_bak = single_memo.copy()
+        variadic_memo_bak = variadic_memo.copy()
+        pytree_memo_bak = pytree_memo.copy()
+        arg_memo_bak = arg_memo.copy()
+        try:
+            check = cls._check_shape(obj, single_memo, variadic_memo, arg_memo)
+        except BaseException:
+            set_shape_memo(
+                single_memo_bak, variadic_memo_bak, pytree_memo_bak, arg_memo_bak
+            )
+            raise
+        if check == "":
+            return check
+        else:
+            set_shape_memo(
+                single_memo_bak, variadic_memo_bak, pytree_memo_bak, arg_memo_bak
+            )
+            return check
+""", """        memos = _ShapeMemos(*get_shape_memo())
+        backup = _ShapeMemos(*[memo.copy() for memo in memos])
+        try:
+            check = cls._check_shape(obj, memos.single, memos.variadic, memos.arg)
+        except BaseException:
+            set_shape_memo(*backup)
+            raise
+        if check != "":
+            set_shape_memo(*backup)
+        return check
+"""), (A, "def _dtype_is_numpy_struct_array(dtype):", """class _ShapeMemos(NamedTuple):
+    single: dict
+    variadic: dict
+    pytree: dict
+    arg: dict
+
+
+def _dtype_is_numpy_struct_array(dtype):"""), (A, "    Literal,\n", "    Literal,\n    NamedTuple,\n")])
+SEEDS["C04_namedtuple_memos_no_rollback_on_exception"] = ("C04", [(A, """        single_memo, variadic_memo, pytree_memo, arg_memo = get_shape_memo()
+        single_memo_bak = single_memo.copy()
+        variadic_memo_bak = variadic_memo.copy()
+        pytree_memo_bak = pytree_memo.copy()
+        arg_memo_bak = arg_memo.copy()
+        try:
+            check = cls._check_shape(obj, single_memo, variadic_memo, arg_memo)
+        except BaseException:
+            set_shape_memo(
+                single_memo_bak, variadic_memo_bak, pytree_memo_bak, arg_memo_bak
+            )
+            raise
+        if check == "":
+            return check
+        else:
+            set_shape_memo(
+                single_memo_bak, variadic_memo_bak, pytree_memo_bak, arg_memo_bak
+            )
+            return check
+""", """        memos = _ShapeMemos(*get_shape_memo())
+        backup = _ShapeMemos(*[memo.copy() for memo in memos])
+        check = cls._check_shape(obj, memos.single, memos.variadic, memos.arg)
+        if check != "":
+            set_shape_memo(*backup)
+        return check
+"""), (A, "def _dtype_is_numpy_struct_array(dtype):", """class _ShapeMemos(NamedTuple):
+    single: dict
+    variadic: dict
+    pytree: dict
+    arg: dict
+
+
+def _dtype_is_numpy_struct_array(dtype):"""), (A, "    Literal,\n", "    Literal,\n    NamedTuple,\n")], "C04.1")
+SEEDS["C04_namedtuple_memos_snapshot_aliases"] = ("C04", [(A, """        single_memo, variadic_memo, pytree_memo, arg_memo = get_shape_memo()
+        single_memo_bak = single_memo.copy()
+        variadic_memo_bak = variadic_memo.copy()
+        pytree_memo_bak = pytree_memo.copy()
+        arg_memo_bak = arg_memo.copy()
+        try:
+            check = cls._check_shape(obj, single_memo, variadic_memo, arg_memo)
+        except BaseException:
+            set_shape_memo(
+                single_memo_bak, variadic_memo_bak, pytree_memo_bak, arg_memo_bak
+            )
+            raise
+        if check == "":
+            return check
+        else:
+            set_shape_memo(
+                single_memo_bak, variadic_memo_bak, pytree_memo_bak, arg_memo_bak
+            )
+            return check
+""", """        memos = _ShapeMemos(*get_shape_memo())
+        backup = _ShapeMemos(*memos)
+        try:
+            check = cls._check_shape(obj, memos.single, memos.variadic, memos.arg)
+        except BaseException:
+            set_shape_memo(*backup)
+            raise
+        if check != "":
+            set_shape_memo(*backup)
+        return check
+"""), (A, "def _dtype_is_numpy_struct_array(dtype):", """class _ShapeMemos(NamedTuple):
+    single: dict
+    variadic: dict
+    pytree: dict
+    arg: dict
+
+
+def _dtype_is_numpy_struct_array(dtype):"""), (A, "    Literal,\n", "    Literal,\n    NamedTuple,\n")], "C04")
+
 # ---- variants modelled on independent sub-agent seeds (see /verif/seeded/)
 SEEDS["C16_skip_already_seen_leaf_objects"] = ("C16", [(P, """        for leaf_index, leaf in enumerate(leaves):
             if cls.structure is None:""", """        checked_ids = set()
